@@ -12,32 +12,55 @@ import (
 	"go.sia.tech/core/types"
 )
 
-// An mpLeaf is one accumulator leaf referenced by a v2 transaction.
+// An mpLeaf is one reference of a v2 transaction to an accumulator leaf.
 type mpLeaf struct {
 	se   *types.StateElement
 	hash func() types.Hash256 // leaf hash (depends on the element's content and leaf index)
+	kind string               // siacoin | siafund | v2contract | chainindex
+	elem any                  // pointer to the referencing element (*types.SiacoinElement, ...)
+	txn  int                  // index of the transaction holding the reference (set by callers that need it)
 }
 
-// txnLeaves lists the accumulator leaves of a transaction in protocol order.
+// id is the element's identifier: two references with the same kind and id denote the same element.
+func (l mpLeaf) id() types.Hash256 {
+	switch e := l.elem.(type) {
+	case *types.SiacoinElement:
+		return types.Hash256(e.ID)
+	case *types.SiafundElement:
+		return types.Hash256(e.ID)
+	case *types.V2FileContractElement:
+		return types.Hash256(e.ID)
+	case *types.ChainIndexElement:
+		return types.Hash256(e.ID)
+	}
+	panic("wirebridge: unknown element kind")
+}
+
+// copyFrom makes the referenced element a deep copy of another reference's element (same kind).
+func (l mpLeaf) copyFrom(src mpLeaf) {
+	reflect.ValueOf(l.elem).Elem().Set(Clone(reflect.ValueOf(src.elem)).Elem())
+}
+
+// txnLeaves lists the accumulator references of a transaction in protocol order.
 func txnLeaves(txn *types.V2Transaction) (ls []mpLeaf) {
 	for i := range txn.SiacoinInputs {
 		e := &txn.SiacoinInputs[i].Parent
-		ls = append(ls, mpLeaf{&e.StateElement, func() types.Hash256 { return consensus.VerifSiacoinLeaf(e, false).Hash() }})
+		ls = append(ls, mpLeaf{se: &e.StateElement, kind: "siacoin", elem: e, hash: func() types.Hash256 { return consensus.VerifSiacoinLeaf(e, false).Hash() }})
 	}
 	for i := range txn.SiafundInputs {
 		e := &txn.SiafundInputs[i].Parent
-		ls = append(ls, mpLeaf{&e.StateElement, func() types.Hash256 { return consensus.VerifSiafundLeaf(e, false).Hash() }})
+		ls = append(ls, mpLeaf{se: &e.StateElement, kind: "siafund", elem: e, hash: func() types.Hash256 { return consensus.VerifSiafundLeaf(e, false).Hash() }})
 	}
 	for i := range txn.FileContractRevisions {
 		e := &txn.FileContractRevisions[i].Parent
-		ls = append(ls, mpLeaf{&e.StateElement, func() types.Hash256 { return consensus.VerifV2FileContractLeaf(e, nil, false).Hash() }})
+		ls = append(ls, mpLeaf{se: &e.StateElement, kind: "v2contract", elem: e, hash: func() types.Hash256 { return consensus.VerifV2FileContractLeaf(e, nil, false).Hash() }})
 	}
 	for i := range txn.FileContractResolutions {
 		e := &txn.FileContractResolutions[i].Parent
-		ls = append(ls, mpLeaf{&e.StateElement, func() types.Hash256 { return consensus.VerifV2FileContractLeaf(e, nil, false).Hash() }})
+		ls = append(ls, mpLeaf{se: &e.StateElement, kind: "v2contract", elem: e, hash: func() types.Hash256 { return consensus.VerifV2FileContractLeaf(e, nil, false).Hash() }})
 		if sp, ok := txn.FileContractResolutions[i].Resolution.(*types.V2StorageProof); ok {
 			ci := &sp.ProofIndex
-			ls = append(ls, mpLeaf{&ci.StateElement, func() types.Hash256 { return consensus.VerifChainIndexLeaf(ci).Hash() }})
+			ls = append(ls, mpLeaf{se: &ci.StateElement, kind: "chainindex", elem: ci, hash: func() types.Hash256 { return consensus.VerifChainIndexLeaf(ci).Hash() }})
 		}
 	}
 	return
@@ -46,12 +69,46 @@ func txnLeaves(txn *types.V2Transaction) (ls []mpLeaf) {
 // MakeConsistent rewrites the leaf indices and Merkle proofs of the elements referenced by txns so
 // that they are valid proofs for one accumulator (the rest of the forest is random): the only values
 // the multiproof form can carry. Some elements are made ephemeral (unassigned leaf index).
+// One element may be referenced several times (a contract revised by one transaction and resolved by a
+// later one, two storage proofs against the same chain index, ...): references of the same kind with the
+// same ID denote the same element and get the same content, leaf index and proof; about a quarter of
+// the references are turned into such repeated references of an earlier element.
 // The forest is built here from the definition (leaf hash of each element, pairwise node hashes),
 // independently of types/multiproof.go.
 func MakeConsistent(r *rand.Rand, txns []*types.V2Transaction) {
 	var all []mpLeaf
 	for _, t := range txns {
 		all = append(all, txnLeaves(t)...)
+	}
+	// repeated references: copy an earlier element of the same kind, then group by (kind, id)
+	for i := range all {
+		if r.Intn(4) != 0 {
+			continue
+		}
+		var cands []int
+		for j := 0; j < i; j++ {
+			if all[j].kind == all[i].kind {
+				cands = append(cands, j)
+			}
+		}
+		if len(cands) > 0 {
+			all[i].copyFrom(all[cands[r.Intn(len(cands))]])
+		}
+	}
+	type key struct {
+		kind string
+		id   types.Hash256
+	}
+	primary := map[key]int{}
+	dupOf := make([]int, len(all))
+	for i, l := range all {
+		k := key{l.kind, l.id()}
+		if j, ok := primary[k]; ok {
+			dupOf[i] = j
+		} else {
+			primary[k] = i
+			dupOf[i] = -1
+		}
 	}
 	// forest size
 	n := uint64(1) + uint64(r.Int63n(1<<uint(1+r.Intn(20))))
@@ -61,7 +118,10 @@ func MakeConsistent(r *rand.Rand, txns []*types.V2Transaction) {
 	used := map[uint64]bool{}
 	var assigned []mpLeaf
 	base := uint64(r.Int63n(int64(n)))
-	for _, l := range all {
+	for i, l := range all {
+		if dupOf[i] >= 0 {
+			continue
+		}
 		if r.Intn(5) == 0 || uint64(len(used)) >= n {
 			l.se.LeafIndex = types.UnassignedLeafIndex
 			if r.Intn(2) == 0 {
@@ -82,6 +142,15 @@ func MakeConsistent(r *rand.Rand, txns []*types.V2Transaction) {
 		l.se.LeafIndex = idx
 		l.se.MerkleProof = make([]types.Hash256, LeafHeight(idx, n))
 		assigned = append(assigned, l)
+	}
+	for i, l := range all {
+		if j := dupOf[i]; j >= 0 {
+			l.copyFrom(all[j]) // same content, same leaf index; its own proof slice, filled below like the first reference's
+			if l.se.LeafIndex != types.UnassignedLeafIndex {
+				l.se.MerkleProof = make([]types.Hash256, len(all[j].se.MerkleProof))
+				assigned = append(assigned, l)
+			}
+		}
 	}
 	byHeight := map[int][]mpLeaf{}
 	for _, l := range assigned {
@@ -149,6 +218,9 @@ func fixWalk(r *rand.Rand, v reflect.Value) {
 		switch v.Type() {
 		case blockDataType:
 			bd := v.Addr().Interface().(*types.V2BlockData)
+			if r.Intn(6) == 0 {
+				bd.Transactions = append(bd.Transactions, duplicateHeavyTxns(r)...)
+			}
 			ps := make([]*types.V2Transaction, len(bd.Transactions))
 			for i := range bd.Transactions {
 				ps[i] = &bd.Transactions[i]
@@ -176,6 +248,13 @@ func fixWalk(r *rand.Rand, v reflect.Value) {
 					ot.Transaction, ot.V2Transaction = nil, nil
 				}
 			}
+			if r.Intn(6) == 0 {
+				for _, t := range duplicateHeavyTxns(r) {
+					t := t
+					ob.Transactions = append(ob.Transactions, gateway.OutlineTransaction{V2Transaction: &t})
+					ps = append(ps, &t)
+				}
+			}
 			MakeConsistent(r, ps)
 			return
 		}
@@ -190,6 +269,10 @@ func fixWalk(r *rand.Rand, v reflect.Value) {
 	case reflect.Slice:
 		if v.Type() == mpSliceType {
 			s := v.Interface().(types.V2TransactionsMultiproof)
+			if r.Intn(6) == 0 && v.CanSet() {
+				s = append(s, duplicateHeavyTxns(r)...)
+				v.Set(reflect.ValueOf(s))
+			}
 			ps := make([]*types.V2Transaction, len(s))
 			for i := range s {
 				ps[i] = &s[i]
@@ -260,4 +343,63 @@ func ProofShape(txns []types.V2Transaction) (leaves, hashes, sharedTrees int) {
 		}
 	}
 	return
+}
+
+// DuplicateRefs counts, in a multiproof transaction list, the references to an assigned accumulator leaf that
+// another reference already denotes: in total, within one transaction, across transactions, and as the
+// ProofIndex of a second storage proof.
+func DuplicateRefs(txns []types.V2Transaction) (total, within, across, proofIndex int) {
+	first := map[uint64]int{}
+	for ti := range txns {
+		for _, l := range txnLeaves(&txns[ti]) {
+			if l.se.LeafIndex == types.UnassignedLeafIndex {
+				continue
+			}
+			if t0, ok := first[l.se.LeafIndex]; ok {
+				total++
+				if t0 == ti {
+					within++
+				} else {
+					across++
+				}
+				if l.kind == "chainindex" {
+					proofIndex++
+				}
+			} else {
+				first[l.se.LeafIndex] = ti
+			}
+		}
+	}
+	return
+}
+
+// duplicateHeavyTxns returns two transactions in which the same contract is revised by the first and resolved
+// by the second, the second carries two storage proofs against the same chain index, and one siacoin element
+// is spent by both (ids are made equal here; MakeConsistent then gives the references one leaf and one proof).
+func duplicateHeavyTxns(r *rand.Rand) []types.V2Transaction {
+	g := NewGen(r)
+	g.Budget = 2
+	var rev types.V2FileContractRevision
+	var res1, res2 types.V2FileContractResolution
+	var in1, in2 types.V2SiacoinInput
+	for _, p := range []any{&rev, &res1, &res2, &in1, &in2} {
+		v := reflect.ValueOf(p).Elem()
+		g.left = g.Budget
+		g.Fill(v, Random, 3, v.Type().String())
+	}
+	sp1, sp2 := new(types.V2StorageProof), new(types.V2StorageProof)
+	g.Fill(reflect.ValueOf(sp1).Elem(), Random, 3, "V2StorageProof")
+	g.Fill(reflect.ValueOf(sp2).Elem(), Random, 3, "V2StorageProof")
+	r.Read(sp1.ProofIndex.ID[:])
+	sp2.ProofIndex.ID = sp1.ProofIndex.ID
+	res1.Resolution, res2.Resolution = sp1, sp2
+	r.Read(rev.Parent.ID[:])
+	res1.Parent.ID = rev.Parent.ID
+	r.Read(res2.Parent.ID[:])
+	r.Read(in1.Parent.ID[:])
+	in2.Parent.ID = in1.Parent.ID
+	return []types.V2Transaction{
+		{SiacoinInputs: []types.V2SiacoinInput{in1}, FileContractRevisions: []types.V2FileContractRevision{rev}},
+		{SiacoinInputs: []types.V2SiacoinInput{in2}, FileContractResolutions: []types.V2FileContractResolution{res1, res2}},
+	}
 }
